@@ -304,7 +304,7 @@ func c04Source(fns []*c04Fn) string {
 	var b strings.Builder
 	b.WriteString("package main\n\n")
 	for _, t := range c04Types {
-		fmt.Fprintf(&b, "type S_%s struct {\n\tPad int\n\tF %s\n}\n\nvar G_%s %s\n\nfunc id_%s(x %s) %s { return x }\n\n", t, t, t, t, t, t, t)
+		fmt.Fprintf(&b, "type S_%s struct {\n\tPad int\n\tF %s\n}\n\nvar G_%s %s\n\nvar GP_%s = &S_%s{}\n\nvar GS_%s = make([]%s, 3)\n\nfunc id_%s(x %s) %s { return x }\n\n", t, t, t, t, t, t, t, t, t, t, t)
 	}
 	for _, f := range fns {
 		b.WriteString(f.Src)
@@ -445,6 +445,21 @@ func c04Functions(c *Ctx, r *rand.Rand) []*c04Fn {
 			add(&c04Fn{T: t, Op: "id", Pos: "map-elem", Arity: 0, Fixed: "a", X: k}, fmt.Sprintf("func FN() %s {\n\tm := map[string]%s{\"k\": %s}\n\treturn m[\"k\"]\n}", t, t, lit))
 			add(&c04Fn{T: t, Op: "id", Pos: "map-assign", Arity: 0, Fixed: "a", X: k}, fmt.Sprintf("func FN() %s {\n\tm := map[string]%s{}\n\tm[\"k\"] = %s\n\treturn m[\"k\"]\n}", t, t, lit))
 			add(&c04Fn{T: t, Op: "id", Pos: "global-assign", Arity: 0, Fixed: "a", X: k}, fmt.Sprintf("func FN() %s {\n\tG_%s = %s\n\treturn G_%s\n}", t, t, lit, t))
+			// the same stores with the value read back as `any`: the declared result type must not be what converts it
+			add(&c04Fn{T: t, Op: "id", Pos: "decl-then-assign-any", Arity: 0, Fixed: "a", X: k}, fmt.Sprintf("func FN() any {\n\tvar x %s\n\tx = %s\n\treturn x\n}", t, lit))
+			add(&c04Fn{T: t, Op: "id", Pos: "field-assign-any", Arity: 0, Fixed: "a", X: k}, fmt.Sprintf("func FN() any {\n\ts := &S_%s{}\n\ts.F = %s\n\treturn s.F\n}", t, lit))
+			add(&c04Fn{T: t, Op: "id", Pos: "field-assign-param-any", Arity: 0, Fixed: "a", X: k}, fmt.Sprintf("func FN_fa(s *S_%s) { s.F = %s }\nfunc FN() any {\n\ts := &S_%s{}\n\tFN_fa(s)\n\treturn s.F\n}", t, lit, t))
+			add(&c04Fn{T: t, Op: "id", Pos: "field-assign-method-any", Arity: 0, Fixed: "a", X: k}, fmt.Sprintf("func (s *S_%s) FN_set() { s.F = %s }\nfunc FN() any {\n\ts := &S_%s{}\n\ts.FN_set()\n\treturn s.F\n}", t, lit, t))
+			add(&c04Fn{T: t, Op: "id", Pos: "field-assign-global-any", Arity: 0, Fixed: "a", X: k}, fmt.Sprintf("func FN() any {\n\tGP_%s.F = %s\n\treturn GP_%s.F\n}", t, lit, t))
+			add(&c04Fn{T: t, Op: "id", Pos: "slice-assign-any", Arity: 0, Fixed: "a", X: k}, fmt.Sprintf("func FN() any {\n\ts := make([]%s, 2)\n\ts[1] = %s\n\treturn s[1]\n}", t, lit))
+			add(&c04Fn{T: t, Op: "id", Pos: "slice-assign-var-index-any", Arity: 0, Fixed: "a", X: k}, fmt.Sprintf("func FN() any {\n\ts := make([]%s, 2)\n\ti := 1\n\ts[i] = %s\n\treturn s[i]\n}", t, lit))
+			add(&c04Fn{T: t, Op: "id", Pos: "slice-assign-global-any", Arity: 0, Fixed: "a", X: k}, fmt.Sprintf("func FN() any {\n\tGS_%s[1] = %s\n\treturn GS_%s[1]\n}", t, lit, t))
+			add(&c04Fn{T: t, Op: "id", Pos: "slice-assign-alias-any", Arity: 0, Fixed: "a", X: k}, fmt.Sprintf("func FN() any {\n\ts := make([]%s, 3)\n\tu := s[1:]\n\tu[0] = %s\n\treturn s[1]\n}", t, lit))
+			add(&c04Fn{T: t, Op: "id", Pos: "append-any", Arity: 0, Fixed: "a", X: k}, fmt.Sprintf("func FN() any {\n\tvar s []%s\n\ts = append(s, %s)\n\treturn s[0]\n}", t, lit))
+			add(&c04Fn{T: t, Op: "id", Pos: "map-assign-any", Arity: 0, Fixed: "a", X: k}, fmt.Sprintf("func FN() any {\n\tm := map[string]%s{}\n\tm[\"k\"] = %s\n\treturn m[\"k\"]\n}", t, lit))
+			add(&c04Fn{T: t, Op: "id", Pos: "map-assign-int-key-any", Arity: 0, Fixed: "a", X: k}, fmt.Sprintf("func FN() any {\n\tm := map[int]%s{}\n\tm[2] = %s\n\treturn m[2]\n}", t, lit))
+			add(&c04Fn{T: t, Op: "id", Pos: "global-assign-any", Arity: 0, Fixed: "a", X: k}, fmt.Sprintf("func FN() any {\n\tG_%s = %s\n\treturn G_%s\n}", t, lit, t))
+			add(&c04Fn{T: t, Op: "id", Pos: "multi-assign-any", Arity: 0, Fixed: "a", X: k}, fmt.Sprintf("func FN() any {\n\ts := &S_%s{}\n\tvar y %s\n\ty, s.F = %s, %s\n\t_ = y\n\treturn s.F\n}", t, t, lit, lit))
 			add(&c04Fn{T: t, Op: "id", Pos: "convert-const", Arity: 0, Fixed: "a", X: k}, fmt.Sprintf("func FN() %s {\n\tx := %s(%s)\n\treturn x\n}", t, t, lit))
 		}
 	}
